@@ -197,7 +197,33 @@ pub fn gen_aggregate_query(t: &mut Tape, table: &DataTable, ctx: &Ctx, order_sen
         q.filter = Some(tg.gen(t, Ty::Bool, 2));
     }
     if t.chance(1, 3) {
-        let a = g.aggregate(t, false);
+        let nterms = 1 + t.weighted(&[5, 3, 2]);
+        let mut having: Option<E> = None;
+        for _ in 0..nterms {
+            let term = having_term(t, &mut g, table, &q);
+            having = Some(match having {
+                None => term,
+                Some(h) => E::bin(if t.chance(2, 3) { BinOp::And } else { BinOp::Or }, h, term),
+            });
+        }
+        let mut h = having.unwrap();
+        // reference to a plain-column key
+        let plain: Vec<E> = q.group_by.iter().filter(|k| matches!(k, E::Col(_))).cloned().collect();
+        if !plain.is_empty() && t.chance(1, 3) {
+            let k = t.pick(&plain).clone();
+            h = E::bin(if t.chance(1, 2) { BinOp::And } else { BinOp::Or }, h, E::Is { not: true, l: Box::new(k), r: Box::new(E::Null) });
+        }
+        q.having = Some(h);
+    }
+    *excluded += g.excluded;
+    q
+}
+
+/// one HAVING term: an aggregate (half of the time one that also occurs in the select list) compared with a literal
+fn having_term(t: &mut Tape, g: &mut AggGen, table: &DataTable, q: &Select) -> E {
+    {
+        let shared: Vec<E> = q.items.iter().filter_map(|(e, _)| if let E::Agg(n, _, _) = e { if n != "STRING_AGG" && n != "ARRAY_AGG" { Some(e.clone()) } else { None } } else { None }).collect();
+        let a = if !shared.is_empty() && t.chance(1, 2) { t.pick(&shared).clone() } else { g.aggregate(t, false) };
         let lit = match &a {
             E::Agg(n, _, args) if n == "MIN" || n == "MAX" || n == "PERCENTILE" => {
                 // compare with a literal of the argument's type
@@ -221,21 +247,12 @@ pub fn gen_aggregate_query(t: &mut Tape, table: &DataTable, ctx: &Ctx, order_sen
             E::Agg(n, _, _) if n == "BOOL_AND" || n == "BOOL_OR" => Some(E::True),
             _ => None,
         };
-        let mut h = match lit {
+        match lit {
             Some(E::True) => a,
             Some(l) => E::bin(*t.pick(&BinOp::CMP), a, l),
             None => E::bin(BinOp::Ge, E::Agg("COUNT".into(), false, vec![]), E::Int(t.range(0, 2))),
-        };
-        // reference to a plain-column key
-        let plain: Vec<E> = q.group_by.iter().filter(|k| matches!(k, E::Col(_))).cloned().collect();
-        if !plain.is_empty() && t.chance(1, 3) {
-            let k = t.pick(&plain).clone();
-            h = E::bin(if t.chance(1, 2) { BinOp::And } else { BinOp::Or }, h, E::Is { not: true, l: Box::new(k), r: Box::new(E::Null) });
         }
-        q.having = Some(h);
     }
-    *excluded += g.excluded;
-    q
 }
 
 /// Does the statement contain an aggregate that has a value entry in every group that receives a row
